@@ -112,6 +112,10 @@ func (f *GenericFeature) FillFromOSM(o OSMFeature) {
 		if o.ClosedWay {
 			f.Tags = f.Tags[0:0]
 		}
+		// A way is a path whatever its OSM tags say: an OSM tag keyed like the
+		// point geometry tag would make the feature read as a point (geometry
+		// accessors look for PointTag first), and the path would be dropped.
+		f.RemoveTags([]string{b6.PointTag})
 
 		points := make([]b6.AnyExpression, 0, len(o.Way.Nodes))
 		for _, id := range o.Way.Nodes {
